@@ -34,7 +34,10 @@ func c04(r *Run) {
 	inputAck := w.MustFn("(*connection).inputAck")
 	inputs := w.MustFn("(*connection).inputs")
 	isBuf := func(m string) func(ssa.Instruction) bool {
-		return func(i ssa.Instruction) bool { x, ok := callOnField(i, "connection", "inputBuffer"); return ok && x == m }
+		return func(i ssa.Instruction) bool {
+			x, ok := callOnField(i, "connection", "inputBuffer")
+			return ok && x == m
+		}
 	}
 	acks := findIns(inputAck, isBuf("bookAck"))
 	if len(acks) < 1 {
